@@ -398,6 +398,11 @@ def _apply_block(text, first_line, relpath, directives, tmpl_file, log, stub):
             hits = [i for i, l in enumerate(lines) if re.search(d['regex'], l)]
             nth = d.get('nth', 1)
             if len(hits) < nth:
+                if d.get('optional'):
+                    # the proof text attached to this anchor is dropped; the obligations it supported will
+                    # then be reported as failed (used only where losing the statement changes the semantics)
+                    log.append(('ANCHOR', 'optional anchor /%s/ not found: hint dropped' % d['regex'], 0))
+                    continue
                 raise ExtractError('anchor /%s/ nth=%d not found' % (d['regex'], nth))
             li = hits[nth - 1]
             off = sum(len(x) + 1 for x in lines[:li])
@@ -551,7 +556,7 @@ def assemble(unit_name, repo=None):
                     elif c2 in ('before', 'after'):
                         rx, tail = _parse_regex_directive(r2, c2)
                         p2, kv2 = _kv(tail.split())
-                        cur = {'kind': c2, 'regex': rx, 'nth': int(kv2.get('nth', 1)), 'lines': []}
+                        cur = {'kind': c2, 'regex': rx, 'nth': int(kv2.get('nth', 1)), 'lines': [], 'optional': 'optional' in p2}
                     elif c2 == 'mutself':
                         cur = {'kind': 'mutself', 'lines': []}
                     elif c2 == 'uncontinue':
